@@ -39,6 +39,11 @@ pub enum Amf0SerializationError {
     #[error("String length greater than 65,535")]
     NormalStringTooLong,
 
+    /// Object properties are written as a name and value pair, and an empty name marks
+    /// the end of the object.  So a property with an empty name can not be encoded.
+    #[error("Object property with an empty name")]
+    EmptyObjectPropertyName,
+
     /// An I/O error occurred while writing to the output buffer.
     #[error("Failed to write to byte buffer")]
     BufferWriteError(#[from] io::Error),
